@@ -82,7 +82,10 @@ def build(case) -> Built:
         t, th, w = to_si(time), to_si(angular_position), to_si(angular_speed)
         val = M.load_si(load, t, th, w)
         b.load_log.append((t, th, w, val))
-        return U.cls('Torque')(val / U.factor_f('Torque', load['unit']), load['unit'])
+        v = val / U.factor_f('Torque', load['unit'])
+        if load.get('numpy'):
+            v = np.float64(v)             # a load function written with numpy (np.sin, np.exp): numpy scalars flow on
+        return U.cls('Torque')(v, load['unit'])
     b.last.external_torque = external_torque
     b.load2_log = []
     if case.get('load2'):
@@ -118,7 +121,17 @@ def build_control(b):
     from gearpy.sensors import AbsoluteRotaryEncoder, Tachometer, Timer
     pc = PWMControl(powertrain=b.powertrain)
     b.rules = []
-    for r in b.case['control']:
+    b.control = pc
+    add_rules(b, b.case['control'])
+    return pc
+
+
+def add_rules(b, specs):
+    """construct the rules of `specs` and add them to the existing PWMControl (possibly after it was used)"""
+    from gearpy.motor_control import rules as Rl
+    from gearpy.sensors import AbsoluteRotaryEncoder, Tachometer, Timer
+    pc = b.control
+    for r in specs:
         k = r['rule']
         if k == 'constant':
             rule = Rl.ConstantPWM(timer=Timer(start_time=B.q('Time', r['start']),
@@ -145,7 +158,6 @@ def build_control(b):
             raise ValueError(k)
         b.rules.append(rule)
         pc.add_rule(rule)
-    return pc
 
 
 def build_stop(b):
